@@ -71,7 +71,9 @@ class Frag:
     consts: Sequence[str] = ()        # names bound once at the top level of the function (`NAME = <expr>`): read from the source
     rename: Dict[str, str] = field(default_factory=dict)   # `ast.unparse(sub-expression)` -> parameter name (e.g. "self._size": "n")
     elt: Optional[int] = None         # assign mode: the value is a comprehension; translate its element (index into an inner list)
-    arg_of: Optional[str] = None      # assign mode: the value is a call of this function; translate its first argument
+    arg_of: Optional[str] = None      # assign mode: only assignments whose value is a call of this function count; translate its
+                                      # first argument (or the keyword argument `kwarg`)
+    kwarg: Optional[str] = None
     funcs: Sequence[str] = ()         # local helper functions of two scalars, kept uninterpreted: parameters `f_<name> : α → α → α`
     lets: Sequence[str] = ()          # lets mode: names assigned (in this order) at the top level of the function
     result: Optional[str] = None      # lets mode: variable whose assigned value contains the tuple/list of result entries
@@ -537,6 +539,9 @@ class Tr:
                     and node.value is not None:
                 assigns.append(node)
         assigns.sort(key=lambda a: (a.lineno, a.col_offset))
+        if self.f.arg_of is not None:
+            assigns = [a for a in assigns if isinstance(a.value, ast.Call) and ast.unparse(a.value.func) == self.f.arg_of
+                       and (a.value.args if self.f.kwarg is None else any(k.arg == self.f.kwarg for k in a.value.keywords))]
         lo, hi = self.f.occ or (0, len(assigns) - 1)
         if hi >= len(assigns):
             raise Unsupported(f"{self.f.func}: only {len(assigns)} assignment(s) to '{self.f.target}'")
@@ -547,12 +552,14 @@ class Tr:
             if self.f.arg_of is not None:
                 if not (isinstance(value, ast.Call) and ast.unparse(value.func) == self.f.arg_of and value.args):
                     raise Unsupported(f"'{self.f.target}' is not assigned a call of {self.f.arg_of}")
-                value = value.args[0]
+                value = value.args[0] if self.f.kwarg is None else [k.value for k in value.keywords if k.arg == self.f.kwarg][0]
             if self.f.elt is not None:
                 if isinstance(value, ast.Call) and len(value.args) == 1 and isinstance(value.args[0], (ast.GeneratorExp, ast.ListComp)):
                     value = value.args[0]          # tuple(<generator>) / list(...)
+                if isinstance(value, (ast.Tuple, ast.List)):
+                    value = ast.ListComp(elt=value, generators=[])       # a literal tuple: pick its entry below
                 if not isinstance(value, (ast.ListComp, ast.GeneratorExp)):
-                    raise Unsupported(f"'{self.f.target}' is not assigned a comprehension")
+                    raise Unsupported(f"'{self.f.target}' is not assigned a comprehension or tuple")
                 value = value.elt
                 if isinstance(value, (ast.List, ast.Tuple)):
                     value = value.elts[self.f.elt]
